@@ -612,6 +612,34 @@ def rd_variants(smi, rng):
     return out
 
 
+def spurious_stereo(rd, rng):
+    """copy of rd with a CW/CCW tag on an untagged carbon that has three or four heavy neighbours, or a Z/E label on an unlabelled
+    acyclic C=C bond with a neighbour on each end (RDKit put none there: usually not a stereo element)"""
+    from rdkit import Chem
+    rw = Chem.RWMol(rd)
+    cands = [a.GetIdx() for a in rw.GetAtoms() if a.GetAtomicNum() == 6 and a.GetChiralTag() == Chem.ChiralType.CHI_UNSPECIFIED
+             and not a.GetIsAromatic() and a.GetDegree() in (3, 4) and all(bd.GetBondType() == Chem.BondType.SINGLE for bd in a.GetBonds())]
+    bcands = [bd.GetIdx() for bd in rw.GetBonds() if bd.GetBondType() == Chem.BondType.DOUBLE and bd.GetStereo() == Chem.BondStereo.STEREONONE
+              and not bd.IsInRing() and bd.GetBeginAtom().GetAtomicNum() == 6 and bd.GetEndAtom().GetAtomicNum() == 6
+              and bd.GetBeginAtom().GetDegree() >= 2 and bd.GetEndAtom().GetDegree() >= 2]
+    done = False
+    if cands and (not bcands or rng.random() < 0.6):
+        rw.GetAtomWithIdx(rng.choice(cands)).SetChiralTag(rng.choice([Chem.ChiralType.CHI_TETRAHEDRAL_CW, Chem.ChiralType.CHI_TETRAHEDRAL_CCW]))
+        done = True
+    elif bcands:
+        bd = rw.GetBondWithIdx(rng.choice(bcands))
+        nb = [x.GetIdx() for x in bd.GetBeginAtom().GetNeighbors() if x.GetIdx() != bd.GetEndAtomIdx()]
+        ne = [x.GetIdx() for x in bd.GetEndAtom().GetNeighbors() if x.GetIdx() != bd.GetBeginAtomIdx()]
+        bd.SetStereoAtoms(rng.choice(nb), rng.choice(ne))
+        bd.SetStereo(rng.choice([Chem.BondStereo.STEREOZ, Chem.BondStereo.STEREOE]))
+        done = True
+    if not done:
+        return None
+    m = rw.GetMol()
+    m.UpdatePropertyCache(strict=False)
+    return m
+
+
 def rd_malformed():
     """RDKit molecules the bridge must reject, or accept in a particular way: unknown element, isotope chython has no entry
     for, charge out of range, bond types outside / inside the table, labels outside the four constants, several radical
@@ -745,6 +773,11 @@ def correspondence(ck, n_corpus):
         rvs = rd_variants(smi, rng)
         if not full and rvs:
             rvs = rvs[:1] + ([rng.choice(rvs[1:])] if len(rvs) > 1 and rng.random() < 0.6 else []) if rich else [rng.choice(rvs)]
+        if rvs and rng.random() < (0.6 if full else 0.35):
+            # a tag / an E/Z label where RDKit itself sees no stereo element: fix_stereo has something to erase
+            extra = spurious_stereo(rvs[0][1], rng)
+            if extra is not None:
+                rvs = rvs + [('spurious tag or label', extra)]
         for vname, rd in rvs:
             tag = f'{smi}|rdkit {vname}'
             smiles_of[tag] = smi
